@@ -158,3 +158,347 @@ def lit_text(src: str) -> str:
     h = f.hex()
     hx = f'(-{h[1:]})%float' if h.startswith('-') else f'({h})%float'
     return f'(lit ({fr.numerator})%Z ({fr.denominator})%Z {hx})'
+
+
+class NumModule:
+    """Accumulates Gallina definitions (over `Num`) translated from numeric Python kernels.
+
+    usage:  m = NumModule('C12_Extracted'); m.constants(path, ['T0', ...]); m.function(path, 'EI_SOx', ...)
+            text = m.text()
+    """
+
+    CALLS1 = {'exp': 'nexp', 'log': 'nln', 'sqrt': 'nsqrt', 'sin': 'nsin', 'cos': 'ncos', 'abs': 'nabs',
+              'fabs': 'nabs', 'absolute': 'nabs'}
+    IDENT_CALLS = {'asarray', 'array', 'float', 'float64', 'atleast_1d', 'copy'}
+
+    def __init__(self, name: str):
+        self.name = name
+        self.defs: list[str] = []
+        self.known: dict[str, int] = {}       # python name -> arity (0 for constants)
+        self.coqname: dict[str, str] = {}
+        self.meta: dict[str, dict] = {}
+
+    # -- helpers -------------------------------------------------------------
+    def _src(self, path):
+        self._text = Path(path).read_text()
+        return ast.parse(self._text, filename=str(path))
+
+    def _seg(self, node):
+        return ast.get_source_segment(self._text, node)
+
+    def _cid(self, pyname: str, prefix: str = '') -> str:
+        c = prefix + pyname
+        if c in ('T', 'add', 'sub', 'mul', 'div', 'opp', 'zero', 'one', 'lit', 'ltb', 'leb', 'eqb', 'of_Z'):
+            c = c + '_'
+        return c
+
+    # -- constants -----------------------------------------------------------
+    def constants(self, path, names: list[str], prefix: str = ''):
+        mod = self._src(path)
+        found = {}
+        for st in mod.body:
+            tgt = None
+            if isinstance(st, ast.Assign) and len(st.targets) == 1 and isinstance(st.targets[0], ast.Name):
+                tgt, val = st.targets[0].id, st.value
+            elif isinstance(st, ast.AnnAssign) and isinstance(st.target, ast.Name) and st.value is not None:
+                tgt, val = st.target.id, st.value
+            if tgt in names:
+                if tgt in found:
+                    raise Untranslatable(f'{path}: constant {tgt} assigned twice')
+                found[tgt] = val
+                e = self.expr(val, {}, where=f'{Path(path).name}:{tgt}')
+                c = self._cid(tgt, prefix)
+                self.defs.append(f'Definition {c} : T N := {e}.')
+                self.known[tgt] = 0
+                self.coqname[tgt] = c
+        missing = [n for n in names if n not in found]
+        if missing:
+            raise Untranslatable(f'{path}: constants not found: {missing}')
+
+    # -- expressions ---------------------------------------------------------
+    def expr(self, n: ast.AST, env: dict, where: str = '') -> str:
+        E = lambda x: self.expr(x, env, where)  # noqa: E731
+        if isinstance(n, ast.Constant):
+            if isinstance(n.value, bool):
+                raise Untranslatable(f'{where}: bool literal in numeric position')
+            if isinstance(n.value, (int, float)):
+                return lit_text(self._seg(n) if hasattr(self, '_text') and self._seg(n) else repr(n.value))
+            raise Untranslatable(f'{where}: literal {n.value!r}')
+        if isinstance(n, ast.Name):
+            if n.id in env:
+                return env[n.id]
+            if n.id in self.known and self.known[n.id] == 0:
+                return self.coqname[n.id]
+            raise Untranslatable(f'{where}: unknown name {n.id}')
+        if isinstance(n, ast.Attribute):
+            key = self._attr_key(n)
+            if key in env:
+                return env[key]
+            raise Untranslatable(f'{where}: unknown attribute {key}')
+        if isinstance(n, ast.UnaryOp):
+            if isinstance(n.op, ast.USub):
+                return f'(- {E(n.operand)})'
+            if isinstance(n.op, ast.UAdd):
+                return E(n.operand)
+            raise Untranslatable(f'{where}: unary {type(n.op).__name__}')
+        if isinstance(n, ast.BinOp):
+            op = {ast.Add: '+', ast.Sub: '-', ast.Mult: '*', ast.Div: '/'}.get(type(n.op))
+            if op:
+                return f'({E(n.left)} {op} {E(n.right)})'
+            if isinstance(n.op, ast.Pow):
+                if isinstance(n.right, ast.Constant) and isinstance(n.right.value, int) and 0 <= n.right.value <= 12:
+                    return f'(npow_nat {E(n.left)} {n.right.value}%nat)'
+                return f'(npow {E(n.left)} {E(n.right)})'
+            raise Untranslatable(f'{where}: operator {type(n.op).__name__}')
+        if isinstance(n, ast.IfExp):
+            return f'(if {self.bexpr(n.test, env, where)} then {E(n.body)} else {E(n.orelse)})'
+        if isinstance(n, ast.Call):
+            f = n.func
+            fname = f.attr if isinstance(f, ast.Attribute) else f.id if isinstance(f, ast.Name) else None
+            if isinstance(f, ast.Attribute) and not (isinstance(f.value, ast.Name) and f.value.id in ('np', 'math', 'numpy')):
+                raise Untranslatable(f'{where}: call {ast.unparse(f)}')
+            if n.keywords:
+                raise Untranslatable(f'{where}: keyword arguments in {fname}')
+            a = n.args
+            if fname in self.IDENT_CALLS and len(a) == 1:
+                return E(a[0])
+            if fname in self.CALLS1 and len(a) == 1:
+                return f'({self.CALLS1[fname]} {E(a[0])})'
+            if fname == 'log10' and len(a) == 1:
+                return f'(nln {E(a[0])} / nln {lit_text("10")})'
+            if fname == 'deg2rad' and len(a) == 1:
+                return f'({E(a[0])} * ({lit_text("3.141592653589793")} / {lit_text("180")}))'
+            if fname == 'hypot' and len(a) == 2:
+                return f'(nsqrt ({E(a[0])} * {E(a[0])} + {E(a[1])} * {E(a[1])}))'
+            if fname == 'where' and len(a) == 3:
+                return f'(if {self.bexpr(a[0], env, where)} then {E(a[1])} else {E(a[2])})'
+            if fname in ('maximum', 'max') and len(a) == 2:
+                return f'(nmax {E(a[0])} {E(a[1])})'
+            if fname in ('minimum', 'min') and len(a) == 2:
+                return f'(nmin {E(a[0])} {E(a[1])})'
+            if fname == 'power' and len(a) == 2:
+                return f'(npow {E(a[0])} {E(a[1])})'
+            if isinstance(f, ast.Name) and fname in self.known and self.known[fname] == len(a) and self.known[fname] > 0:
+                return '(' + self.coqname[fname] + ' ' + ' '.join(E(x) for x in a) + ')'
+            raise Untranslatable(f'{where}: call {fname}/{len(a)}')
+        raise Untranslatable(f'{where}: expression {type(n).__name__}: {ast.unparse(n)[:60]}')
+
+    def _attr_key(self, n: ast.Attribute) -> str:
+        parts = []
+        while isinstance(n, ast.Attribute):
+            parts.append(n.attr)
+            n = n.value
+        if not isinstance(n, ast.Name):
+            raise Untranslatable('attribute base')
+        parts.append(n.id)
+        return '.'.join(reversed(parts))
+
+    def bexpr(self, n: ast.AST, env: dict, where: str = '') -> str:
+        E = lambda x: self.expr(x, env, where)  # noqa: E731
+        B = lambda x: self.bexpr(x, env, where)  # noqa: E731
+        if isinstance(n, ast.Compare):
+            parts = []
+            left = n.left
+            for op, right in zip(n.ops, n.comparators):
+                l, r = E(left), E(right)
+                t = {ast.Lt: f'(ltb {l} {r})', ast.LtE: f'(leb {l} {r})', ast.Gt: f'(ltb {r} {l})',
+                     ast.GtE: f'(leb {r} {l})', ast.Eq: f'(eqb {l} {r})', ast.NotEq: f'(negb (eqb {l} {r}))'}.get(type(op))
+                if t is None:
+                    raise Untranslatable(f'{where}: comparison {type(op).__name__}')
+                parts.append(t)
+                left = right
+            return parts[0] if len(parts) == 1 else '(' + ' && '.join(parts) + ')'
+        if isinstance(n, ast.BoolOp):
+            j = ' && ' if isinstance(n.op, ast.And) else ' || '
+            return '(' + j.join(B(v) for v in n.values) + ')'
+        if isinstance(n, ast.BinOp) and isinstance(n.op, (ast.BitAnd, ast.BitOr)):
+            j = ' && ' if isinstance(n.op, ast.BitAnd) else ' || '
+            return f'({B(n.left)}{j}{B(n.right)})'
+        if isinstance(n, ast.UnaryOp) and isinstance(n.op, (ast.Not, ast.Invert)):
+            return f'(negb {B(n.operand)})'
+        if isinstance(n, ast.Constant) and isinstance(n.value, bool):
+            return 'true' if n.value else 'false'
+        if isinstance(n, ast.Name) and n.id in env and env[n.id].startswith('(*b*)'):
+            return env[n.id][5:]
+        raise Untranslatable(f'{where}: boolean expression {ast.unparse(n)[:60]}')
+
+    # -- functions -----------------------------------------------------------
+    def function(self, path, fname: str, params: list[str] | None = None, cls: str | None = None,
+                 attrs: dict[str, list[str]] | None = None, coq_name: str | None = None,
+                 skip_guards: bool = True, bool_params: list[str] | None = None,
+                 result_fields: list[str] | None = None):
+        """Translate `def fname(...)`.
+
+        params  python parameter names to keep (default: all positional), each a scalar `T N`;
+        attrs   {param: [attr, ...]}: record-like parameters, each listed attribute becomes a scalar parameter
+                named <param>_<attr>, in the order given;
+        `if <cond>: raise ...` statements are dropped when skip_guards (recorded in meta['guards'])."""
+        mod = self._src(path)
+        fn = find_function(mod, fname, cls)
+        where = f'{Path(path).name}:{fname}'
+        allp = [a.arg for a in fn.args.args if a.arg not in ('self', 'cls')]
+        if fn.args.vararg or fn.args.kwarg:
+            raise Untranslatable(f'{where}: *args/**kwargs')
+        params = params if params is not None else allp
+        attrs = attrs or {}
+        bool_params = bool_params or []
+        env: dict[str, str] = {}
+        sig: list[str] = []
+        for p in allp:
+            if p in attrs:
+                for a in attrs[p]:
+                    env[f'{p}.{a}'] = f'{p}_{a}'
+                    sig.append(f'({p}_{a} : T N)')
+            elif p in bool_params:
+                env[p] = f'(*b*){p}'
+                sig.append(f'({p} : bool)')
+            elif p in params:
+                env[p] = self._cid(p, 'v_')
+                sig.append(f'({env[p]} : T N)')
+            else:
+                raise Untranslatable(f'{where}: parameter {p} not declared to the translator')
+        guards: list[str] = []
+        body = self.block(strip_doc(fn.body), env, where, guards, skip_guards, result_fields)
+        c = coq_name or self._cid(fname)
+        self.defs.append(f'Definition {c} {" ".join(sig)} :=\n{body}.')
+        self.known[fname] = len(sig)
+        self.coqname[fname] = c
+        self.meta[fname] = {'params': [s.strip('()').split(' : ')[0] for s in sig], 'guards': guards}
+        return self.meta[fname]
+
+    def block(self, stmts, env, where, guards, skip_guards, result_fields, indent='  ') -> str:
+        if not stmts:
+            raise Untranslatable(f'{where}: control reaches end of function without return')
+        st, rest = stmts[0], stmts[1:]
+        env = dict(env)
+        nxt = lambda: self.block(rest, env, where, guards, skip_guards, result_fields, indent)  # noqa: E731
+        if isinstance(st, ast.Return):
+            if rest:
+                raise Untranslatable(f'{where}: code after return')
+            return indent + self.ret(st.value, env, where, result_fields)
+        if isinstance(st, (ast.Assign, ast.AnnAssign)):
+            tgt = st.targets[0] if isinstance(st, ast.Assign) else st.target
+            if isinstance(st, ast.Assign) and len(st.targets) != 1:
+                raise Untranslatable(f'{where}: chained assignment')
+            if not isinstance(tgt, ast.Name):
+                raise Untranslatable(f'{where}: assignment target {ast.unparse(tgt)}')
+            try:
+                e = self.expr(st.value, env, where)
+                v = self._fresh(tgt.id, env)
+                env[tgt.id] = v
+                return f'{indent}let {v} := {e} in\n' + nxt()
+            except Untranslatable:
+                b = self.bexpr(st.value, env, where)
+                v = self._fresh(tgt.id, env)
+                env[tgt.id] = f'(*b*){v}'
+                return f'{indent}let {v} := {b} in\n' + nxt()
+        if isinstance(st, ast.AugAssign) and isinstance(st.target, ast.Name):
+            op = {ast.Add: '+', ast.Sub: '-', ast.Mult: '*', ast.Div: '/'}.get(type(st.op))
+            if op is None:
+                raise Untranslatable(f'{where}: augmented {type(st.op).__name__}')
+            e = f'({self.expr(st.target, env, where)} {op} {self.expr(st.value, env, where)})'
+            v = self._fresh(st.target.id, env)
+            env[st.target.id] = v
+            return f'{indent}let {v} := {e} in\n' + nxt()
+        if isinstance(st, ast.If):
+            if all(isinstance(s, ast.Raise) for s in st.body) and not st.orelse:
+                if not skip_guards:
+                    raise Untranslatable(f'{where}: raise guard')
+                guards.append(ast.unparse(st.test))
+                return nxt()
+            test = self.bexpr(st.test, env, where)
+            then_returns = self._returns(st.body)
+            else_returns = self._returns(st.orelse) if st.orelse else False
+            if then_returns and (else_returns or not st.orelse):
+                th = self.block(st.body, env, where, guards, skip_guards, result_fields, indent + '  ')
+                el = self.block((st.orelse or []) + rest if not else_returns else st.orelse, env, where, guards,
+                                skip_guards, result_fields, indent + '  ')
+                if else_returns and rest:
+                    raise Untranslatable(f'{where}: code after if/else that both return')
+                return f'{indent}if {test} then\n{th}\n{indent}else\n{el}'
+            # non-returning branches: each assigns the same set of variables
+            tv = self._assigned(st.body)
+            ev = self._assigned(st.orelse)
+            vs = sorted(set(tv) | set(ev))
+            if not vs or then_returns or else_returns:
+                raise Untranslatable(f'{where}: unsupported if shape')
+            for v in vs:
+                if v not in env and (v not in tv or v not in ev):
+                    raise Untranslatable(f'{where}: {v} assigned in one branch only and undefined before')
+            tup = lambda e2: ('(' + ', '.join(e2[v] for v in vs) + ')') if len(vs) > 1 else e2[vs[0]]  # noqa: E731
+            th = self._branch_lets(st.body, env, where, indent + '  ', tup)
+            el = self._branch_lets(st.orelse, env, where, indent + '  ', tup)
+            news = []
+            for v in vs:
+                nv = self._fresh(v, env)
+                env[v] = nv
+                news.append(nv)
+            pat = ("'(" + ', '.join(news) + ')') if len(news) > 1 else news[0]
+            return f'{indent}let {pat} := (if {test} then\n{th}\n{indent}else\n{el}) in\n' + nxt()
+        if isinstance(st, ast.Expr) and isinstance(st.value, ast.Constant):
+            return nxt()
+        if isinstance(st, ast.Assert):
+            guards.append('assert ' + ast.unparse(st.test))
+            return nxt()
+        raise Untranslatable(f'{where}: statement {type(st).__name__}: {ast.unparse(st)[:60]}')
+
+    def _branch_lets(self, stmts, env, where, indent, tup):
+        env = dict(env)
+        out = ''
+        for s in stmts:
+            if isinstance(s, ast.Assign) and len(s.targets) == 1 and isinstance(s.targets[0], ast.Name):
+                e = self.expr(s.value, env, where)
+                v = self._fresh(s.targets[0].id, env)
+                env[s.targets[0].id] = v
+                out += f'{indent}let {v} := {e} in\n'
+            elif isinstance(s, ast.Pass):
+                continue
+            else:
+                raise Untranslatable(f'{where}: statement in branch: {ast.unparse(s)[:60]}')
+        return out + indent + tup(env)
+
+    def _assigned(self, stmts):
+        out = []
+        for s in stmts or []:
+            if isinstance(s, ast.Assign) and len(s.targets) == 1 and isinstance(s.targets[0], ast.Name):
+                out.append(s.targets[0].id)
+            elif isinstance(s, ast.Pass):
+                pass
+            else:
+                raise Untranslatable(f'unsupported statement in if-branch: {ast.unparse(s)[:60]}')
+        return out
+
+    def _returns(self, stmts) -> bool:
+        if not stmts:
+            return False
+        last = stmts[-1]
+        if isinstance(last, ast.Return):
+            return True
+        if isinstance(last, ast.If):
+            return self._returns(last.body) and bool(last.orelse) and self._returns(last.orelse)
+        return False
+
+    _n = 0
+
+    def _fresh(self, base: str, env) -> str:
+        NumModule._n += 1
+        return f'{base}_{NumModule._n}'
+
+    def ret(self, v, env, where, result_fields) -> str:
+        if isinstance(v, ast.Tuple):
+            return '(' + ', '.join(self.expr(x, env, where) for x in v.elts) + ')'
+        if isinstance(v, ast.Call) and v.keywords and not v.args and result_fields is not None:
+            kw = {k.arg: k.value for k in v.keywords}
+            if sorted(kw) != sorted(result_fields):
+                raise Untranslatable(f'{where}: result fields {sorted(kw)} != {sorted(result_fields)}')
+            return '(' + ', '.join(self.expr(kw[f], env, where) for f in result_fields) + ')'
+        return self.expr(v, env, where)
+
+    def raw(self, text: str):
+        self.defs.append(text)
+
+    def text(self) -> str:
+        return ('(* generated by translator/py2coq.py from the current /repo working tree — do not edit *)\n'
+                'From Coq Require Import ZArith PrimFloat Bool.\nFrom AV Require Import lib.Num.\n'
+                'Section Gen.\nContext {N : Num}.\nLocal Open Scope num_scope.\nLocal Open Scope bool_scope.\n\n'
+                + '\n\n'.join(self.defs) + '\n\nEnd Gen.\n')
